@@ -7,7 +7,8 @@
 (***************************************************************************)
 EXTENDS Mono
 
-CONSTANTS Family,     \* request family, see below
+CONSTANTS PageSize,   \* page size
+          Family,     \* request family, see below
           MaxLen,     \* number of operations
           WithMvc,    \* include the move constructor (drops the upstream: findings/C06_move_drops_upstream.md)
           Sim         \* TRUE: keep the operation history and print it at the end of every behaviour
@@ -43,7 +44,7 @@ ContainsCands ==
   {q \in {0, fb, fb - 1, fe, fe - 1, fe + 8, UB - 1} \cup UNION {{x.a, x.a + x.n - 1, x.a + x.n} : x \in blocks}
          \cup {k.a : k \in Book} : q >= 0}
 
-MCInit == Init /\ len = 0 /\ hist = <<>>
+MCInit == Init(PageSize) /\ len = 0 /\ hist = <<>>
 
 MCNext ==
   \/ /\ len < MaxLen
